@@ -218,7 +218,7 @@ __CPROVER_ensures(g_notify_calls == g_thrown_total) /*@ C10 "every exception tha
 __CPROVER_ensures(g_exits == 1 && g_stop_seen) /*@ C07 "the worker leaves its loop only on the stop request and then runs the exit drain exactly once" */
 ''')],
     harness='  BW* s; BW_thread_main(s);',
-    dropped=['the options copy captured by the lambda (passed to _init)', 'text of the error messages'], trusted=['_poll and _exit by their own units; stop() on another thread may clear the running flag at any time (rely step in the load stub)', 'termination of the loop (liveness) is not claimed'], min_obligations=20)
+    dropped=['the options copy captured by the lambda (passed to _init)', 'text of the error messages'], trusted=['_poll and _exit by their own units; stop() on another thread may clear the running flag at any time (rely step in the load stub)', '_init does not throw (valid limits, unit BW.init_limits): it runs outside any try block, so an invalid configuration terminates the process - a configuration error, outside C10', 'termination of the loop (liveness) is not claimed'], min_obligations=20)
 UNITS.append(main_loop)
 
 # ------------------------------------------------------------------------------------------ BackendWorker::_poll: one pass of the backend
@@ -290,3 +290,28 @@ __CPROVER_ensures(g_sleeps == 1 ==> (!self->_wake_up_flag && g_t_cleanup_tc < g_
     dropped=['std::unique_lock / condition_variable::wait_for as one stub (spurious wake-ups and time-outs are the same event to the caller)', 'the error notifier argument of _check_failure_counter', 'std::chrono durations as integers'],
     trusted=['the called functions by their own units (BW.update_cache*, BW.populate_all, BW.has_pending, BW.process_lowest, BW.flush_sinks, BW.failure_counter, BW.queues_empty, BW.cleanup_pred, BW.cleanup_loggers)'], min_obligations=30)
 UNITS.append(bw_poll)
+
+# ------------------------------------------------------------------------------------------ BackendWorker::_init: normalisation / validation of the transit event limits
+IN_PRELUDE = r'''
+typedef struct Options { size_t transit_events_hard_limit; size_t transit_events_soft_limit; } Options;
+typedef struct BW { Options _options; } BW;
+#define POW2(x) ((x) != 0 && (((x) & ((x) - 1)) == 0))
+'''
+bw_init_limits = dict(
+    name='BW.init_limits', primary='C03', props={'C03', 'C05'}, kind='L',
+    desc='BackendWorker::_init, the statements that normalise and validate transit_events_soft_limit / transit_events_hard_limit: the worker only ever runs with 1 <= soft <= hard, both powers of two (what TransitEventBuffer and the batch logic assume); anything else is an error before the first pass',
+    structs=[], prelude=IN_PRELUDE, enforce='BW_init_limits', replace=[],
+    funcs=[dict(src=dict(header='quill/core/MathUtilities.h', cls=None, name='is_power_of_two'), src_params=['number'], cfun='is_power_of_two', sig='bool is_power_of_two(uint64_t number)'),
+           dict(src=dict(header=BH, cls='BackendWorker', name='_init', stmt_re=r'if \(_options\.transit_events_hard_limit == 0\).*'), cfun='BW_init_limits', sig='void BW_init_limits(BW* self)', cls_c='BW',
+                member_fields=['_options'], exceptions=True,
+                pre_rules=[(r'throw\s*\(\s*QuillError\s*\{.*?\}\s*\)\s*;(?=\s*\})', 'throw(QuillError{"x"});'), (r'\}\s*\}\s*$', '}')],
+                contract=r'''
+__CPROVER_requires(__CPROVER_is_fresh(self, sizeof(*self)) && g_exc == 0)
+__CPROVER_assigns(self->_options.transit_events_hard_limit, self->_options.transit_events_soft_limit, g_exc)
+__CPROVER_ensures(g_exc == 0 ==> (POW2(self->_options.transit_events_hard_limit) && POW2(self->_options.transit_events_soft_limit) && self->_options.transit_events_soft_limit <= self->_options.transit_events_hard_limit)) /*@ C03,C05 "the backend only runs with 1 <= soft limit <= hard limit, both powers of two" */
+__CPROVER_ensures((POW2(OLD(self->_options.transit_events_hard_limit)) && POW2(OLD(self->_options.transit_events_soft_limit)) && OLD(self->_options.transit_events_soft_limit) <= OLD(self->_options.transit_events_hard_limit)) ==> (g_exc == 0 && self->_options.transit_events_hard_limit == OLD(self->_options.transit_events_hard_limit) && self->_options.transit_events_soft_limit == OLD(self->_options.transit_events_soft_limit))) /*@ C03 "valid limits are accepted unchanged" */
+__CPROVER_ensures(g_exc == 0 || g_exc == EXC_STD)
+''')],
+    harness='  BW* s; BW_init_limits(s);',
+    dropped=['text of the error messages (fmt::format)'], trusted=['_init runs outside any try block of the thread function: an invalid configuration terminates the process (std::terminate) instead of reaching the error notifier - a configuration error, outside C10'], min_obligations=8)
+UNITS.append(bw_init_limits)
